@@ -18,6 +18,7 @@
 import KatdalModel.Lemmas.FirstStage
 import KatdalModel.Lemmas.Compose
 import KatdalModel.Lemmas.ConcatList
+import KatdalModel.Lemmas.ConcatTail
 open Np Index LazyIx
 
 namespace C05
@@ -306,6 +307,77 @@ theorem c05_concat_head (lens : List Nat) (hlens : lens ≠ []) (ix : Ix) (hG : 
     simp only [headInG, Bool.and_eq_true, List.all_eq_true, decide_eq_true_eq] at hG
     exact concatHead_list lens l ((strictInc_iff_pairwise l).mp hG.1) hG.2
 
+theorem partLens_ne_nil {α} (parts : List (NDArr α)) (h : parts ≠ []) : partLens parts ≠ [] := by
+  cases parts with
+  | nil => exact absurd rfl h
+  | cons a t => simp [partLens]
+
+/-- **Concatenated indexer, whole request (head and tail axes)**: for every supported head index,
+    every non-empty list of parts of any lengths and every tail key made of non-empty position
+    lists, the request answers exactly what the same key answers on the concatenation of the parts
+    under outer indexing: same error, or same shape and the same element at every in-bounds
+    coordinate vector.  (Empty tail selections under a slice or mask head are the recorded finding
+    `c05_concat_empty_tail_selection`, see `c05_concat_empty_tail_is_error`; integer tail indices
+    are outside the model.) -/
+theorem c05_concat_getitem {α} [Inhabited α] (parts : List (NDArr α)) (hparts : parts ≠ [])
+    (tailShape : List Nat) (ix : Ix) (tails : List (List Nat))
+    (hG : headInG (total (partLens parts)) ix = true)
+    (hne : ∀ t ∈ tails, t ≠ []) :
+    match concatFullSpec parts tailShape ix tails with
+    | .error e => concatFull parts ix tails = .error e
+    | .ok s => ∃ r, concatFull parts ix tails = .ok r ∧ r.shape = s.shape ∧
+        ∀ js, Index.inBounds s.shape js → r.get js = s.get js := by
+  have hhead := c05_concat_head _ (partLens_ne_nil parts hparts) ix hG
+  have hany : tails.any (·.isEmpty) = false := by
+    rw [List.any_eq_false]
+    intro t ht
+    have := hne t ht
+    cases t with
+    | nil => exact absurd rfl this
+    | cons _ _ => simp
+  unfold concatFullSpec concatFull
+  simp only [hhead, concatSpec, hany, Bool.and_false]
+  cases hres : ix.resolve (total (partLens parts)) with
+  | error e => simp [bind, Except.bind]
+  | ok sel =>
+    have hv := resolve_valid _ ix sel hres
+    cases sel with
+    | one g =>
+      obtain ⟨pr, hpr⟩ := locate_some_of_lt _ g hv
+      simp only [bind, Except.bind, pure, Except.pure, hpr]
+      refine ⟨_, rfl, rfl, ?_⟩
+      intro js _
+      simp [oindexSel, pickCoords, concatArr, hpr]
+    | many gs =>
+      obtain ⟨prs, hm, hl, hget⟩ := mapM_locate_ok _ gs hv
+      simp only [bind, Except.bind, pure, Except.pure]
+      generalize hX : List.mapM (m := Except Err) (β := Nat × Nat) _ gs = X
+      have hX' : X = .ok prs := hX.symm.trans hm
+      subst hX'
+      refine ⟨_, rfl, ?_, ?_⟩
+      · simp [oindexSel, selShape, hl]
+      intro js hjs
+      simp only [oindexSel, selShape] at hjs
+      cases js with
+      | nil => exact absurd hjs (by simp [Index.inBounds])
+      | cons j t =>
+        have hj' : j < gs.length := hjs.1
+        have hg := hget j hj'
+        simp only [List.getD_eq_getElem?_getD] at hg
+        simp [oindexSel, pickCoords, concatArr, hg]
+
+/-- the hypothesis `hne` of `c05_concat_getitem` cannot be dropped: an empty tail selection under a
+    slice head is answered with ValueError (the chunk `.reshape((-1,) + shape_tails)` fails) although
+    the same key has an (empty) answer on the concatenation - recorded finding
+    `c05_concat_empty_tail_selection`, replayed on the implementation by the harness -/
+theorem c05_concat_empty_tail_is_error :
+    ∃ (parts : List (NDArr Nat)) (tailShape : List Nat) (ix : Ix) (tails : List (List Nat)),
+      parts ≠ [] ∧ headInG (total (partLens parts)) ix = true ∧
+      (concatFullSpec parts tailShape ix tails).toBool = true ∧
+      (match concatFull parts ix tails with | .error .value => true | _ => false) = true :=
+  ⟨[⟨[2, 3], fun js => js.foldl (· * 10 + ·) 1⟩, ⟨[1, 3], fun js => js.foldl (· * 10 + ·) 2⟩], [3],
+    .slice none none none, [[]], by simp, by decide, by rfl, by rfl⟩
+
 /-- negative-step head slices are NOT covered: the code answers with other rows than numpy
     (known finding C05-concat-negative-step; replayed on the implementation by the harness) -/
 theorem c05_concat_slice_negstep_is_false :
@@ -342,5 +414,14 @@ example : getitem1 2 (.slice none none none) (.list [-3]) = .error .index := by 
 example : getitem1 6 (.slice none none none) (.list [2, 2]) = .error .type := by decide
 -- all-False mask is an empty selection (the defect repaired in /repo commit 51619a3)
 example : getitem1 3 (.slice none none none) (.mask [false, false, false]) = .ok (.many []) := by decide
+-- whole request on two parts with a tail axis: rows 0 and 2 of the concatenation, columns 2 and 0
+example : (match concatFull [⟨[2, 3], fun js => js.foldl (· * 10 + ·) 1⟩, ⟨[1, 3], fun js => js.foldl (· * 10 + ·) 2⟩]
+    (.list [0, 2]) [[2, 0]] with
+    | .ok r => (r.shape, [r.get [0, 0], r.get [0, 1], r.get [1, 0], r.get [1, 1]])
+    | .error _ => ([], [])) = ([2, 2], [102, 100, 202, 200]) := by decide
+example : (match concatFullSpec [⟨[2, 3], fun js => js.foldl (· * 10 + ·) 1⟩, ⟨[1, 3], fun js => js.foldl (· * 10 + ·) 2⟩] [3]
+    (.list [0, 2]) [[2, 0]] with
+    | .ok r => (r.shape, [r.get [0, 0], r.get [0, 1], r.get [1, 0], r.get [1, 1]])
+    | .error _ => ([], [])) = ([2, 2], [102, 100, 202, 200]) := by decide
 
 end C05
